@@ -80,9 +80,9 @@ Definition core_radius : T := dec 42 (-7).
 Definition n2_kerr : T := dec 26 (-21).
 
 Definition ref_wavelength (fb : fiber) : T :=
-  match fb_ref fb with RefDefault => dec 1550 (-9) | RefWavelength w => w | RefFrequency f => c_light / f end.
+  match fb_ref fb with RefDefault => dec 155 (-8) | RefWavelength w => w | RefFrequency f => c_light / f end.
 Definition ref_frequency (fb : fiber) : T :=
-  match fb_ref fb with RefDefault => c_light / dec 1550 (-9) | RefWavelength w => c_light / w | RefFrequency f => f end.
+  match fb_ref fb with RefDefault => c_light / dec 155 (-8) | RefWavelength w => c_light / w | RefFrequency f => f end.
 
 Definition effective_area (fb : fiber) : T :=
   match fb_area fb with
